@@ -17,6 +17,7 @@ import Drv.C08
 import Drv.WalW
 import Drv.Links
 import Drv.KvNode
+import Drv.KvChain
 /-! `drv <model>`: executable models behind a one-line-in, one-line-out protocol. -/
 def main (args : List String) : IO UInt32 := do
   match args with
@@ -43,4 +44,6 @@ def main (args : List String) : IO UInt32 := do
   | ["links"] => Drv.Links.main; return 0
   | ["kvnode"] => Drv.KvNode.main; return 0
   | ["kvnode-trace"] => Drv.KvNode.main true; return 0
+  | ["kvchain"] => Drv.KvChain.main; return 0
+  | ["kvchain-trace"] => Drv.KvChain.main true; return 0
   | _ => IO.eprintln "usage: drv <model>"; return 2
